@@ -917,6 +917,27 @@ fn run_witnesses(c: &mut Ctx) {
     }
 }
 
+/// large, extremely compressible streams (blank scans): compress then decode must return every byte
+fn run_big(c: &mut Ctx) {
+    for (i, (len, byte)) in [(1_200_000usize, 0u8), (900_000, 0xff), (2_000_000, 0x20), (300_000, 0)].iter().enumerate() {
+        let Some(_r) = c.case("big", i as u64) else { continue };
+        let plain = vec![*byte; *len];
+        let mut st = lopdf::Stream::new(lopdf::Dictionary::new(), plain.clone());
+        let r = crate::ctx::guard(|| { st.compress().map_err(|e| format!("{:?}", e))?; st.get_plain_content().map_err(|e| format!("{:?}", e)) });
+        c.nontrivial(&format!("big{}", i));
+        match r {
+            Ok(Ok(back)) => {
+                if back != plain { c.oracle_fail("compress-rt:big", &format!("compress then decode of {} x {:#04x} returned {} bytes", len, byte, back.len()), json!({"len": len, "byte": byte})); }
+                if st.content.len() > plain.len() { c.oracle_fail("compress-longer", "compress made the stream longer", json!({"len": len})); }
+                match st.dict.get(b"Length") { Ok(Object::Integer(n)) if *n as usize == st.content.len() => {}, _ => c.oracle_fail("length-inv", "Length differs from the content length after compress", json!({"len": len})) }
+                c.count("big.cases");
+            }
+            Ok(Err(e)) => c.oracle_fail("compress-rt:big", &format!("compress/decode failed: {}", e), json!({"len": len})),
+            Err((site, msg)) => c.oracle_fail(&format!("panic@{}", site), &msg, json!({"len": len})),
+        }
+    }
+}
+
 pub fn run(c: &mut Ctx) {
     c.rule = "plaintexts x reference encoders (own PNG filter encoder incl. mixed rows, own ASCII85 encoder with z / layout variants, flate2, weezl \
 EarlyChange 0/1) x chains of length 1-3 over {Flate, LZW, ASCII85} x {no parms, dictionary, array} x Predictor {absent,1,10..15} x Columns 1-12 x Colors 1-4 x \
@@ -925,6 +946,7 @@ filtered bytes, bpp 1-8); frames through decode_frame; malformed ASCII85 / frame
 set_content / set_plain_content; Document::compress / decompress. Non-trivial = non-empty plaintext (chains), row longer than bpp (rows), >=2 rows (frames), \
 any malformed / edit case; distinct by request text.".into();
     run_witnesses(c);
+    run_big(c);
     run_a85(c);
     run_png(c);
     run_chains(c);
